@@ -27,6 +27,31 @@ def names_of(ds=None):
     return [str(x) for x in d["nuclides"]], [float(h[0]) == math.inf for h in d["hldata"]]
 
 
+_EXT = {}
+
+
+def extreme_parents(ds=None):
+    """parents (columns) whose stored float C or C^-1 column holds an explicit zero or an entry below 1e-30 in magnitude:
+    the places where the float matrices differ structurally or by underflow from the exact ones"""
+    if ds in _EXT:
+        return _EXT[ds]
+    import os, numpy as np, scipy.sparse as sp
+    base = SYNTH_DIR if ds == "synth" else os.path.join(C.REPO, "radioactivedecay/icrp107_ame2020_nubase2020")
+    names, _ = names_of(ds)
+    out, zeros = set(), set()
+    for f in ("c_scipy.npz", "c_inv_scipy.npz"):
+        m = sp.load_npz(os.path.join(base, f)).tocoo()
+        for i, j, v in zip(m.row, m.col, m.data):
+            if abs(v) < 1e-30:
+                out.add(names[j])
+            if v == 0:
+                zeros.add(names[j])
+    # the columns with explicit zeros first (they are few), then the merely tiny ones
+    _EXT[ds] = sorted(zeros) + sorted(out - zeros)
+    _EXT[(ds, "zeros")] = len(zeros)
+    return _EXT[ds]
+
+
 def qlit(pq):
     p, q = int(pq[0]), int(pq[1])
     return f"(QL ({p})%Z {q}%positive)"
@@ -45,6 +70,10 @@ def gen_cases(rng, names, stable, n_single, n_mixed, cls, cum_every=3, tmax=30, 
     radio_set = set(radio)
     cases = []
     singles = only if only is not None else (radio if n_single >= len(radio) else rng.sample(radio, n_single))
+    if only is None and n_single and n_single < len(radio):
+        ext = [x for x in extreme_parents(ds) if x in radio_set]
+        nz = min(_EXT.get((ds, "zeros"), 0), 20)
+        singles = list(singles) + ext[:nz] + rng.sample(ext[nz:], min(len(ext) - nz, max(4, n_single // 8)))
     for n in singles:
         amt = 10 ** rng.uniform(-5, 30)
         cases.append({"cls": cls, "contents": {n: float(amt).hex()}, "unit": "num",
@@ -235,6 +264,8 @@ def flow_stream(rng, ncases, cls, tag, streams, viol, samples):
     for _ in range(ncases):
         k = rng.randint(2, 4)
         chosen = rng.sample(radio, rng.randint(1, 3)) + rng.sample(names, rng.randint(0, 2))
+        if rng.random() < 0.3 and extreme_parents():
+            chosen[0] = rng.choice([x for x in extreme_parents()[:max(1, _EXT.get((None, "zeros"), 1))] if x in radio] or radio)
         cont = {c: float(round(10 ** rng.uniform(3, 25), 3) if hp else 10 ** rng.uniform(0, 28)).hex() for c in set(chosen)}
         ttot = 10 ** rng.uniform(-3, 10)
         cuts = sorted(rng.random() for _ in range(k - 1))
